@@ -101,3 +101,24 @@ Definition edit_in_doc (s : str) (e : text_edit) : bool :=
   let n := Z.of_nat (length (split_lines s)) in
   ((0 <=? e_sl e) && (e_sl e <=? n) && (e_sc e =? 0) &&
    (0 <=? e_el e) && (e_el e <=? n) && (e_ec e =? 0))%Z.
+
+(* ---- real positions vs. the clamp ----
+   A document has [count_eol s + 1] lines (the last one possibly empty); line l is a real line
+   iff l <= count_eol s.  [open_tail s]: the last line is non-empty and unterminated. *)
+Fixpoint count_eol (s : str) : nat :=
+  match s with
+  | [] => O
+  | c :: s' => (if eol_here c s' then 1 else 0) + count_eol s'
+  end.
+
+Fixpoint open_tail (s : str) : bool :=
+  match s with
+  | [] => false
+  | c :: s' => match s' with [] => negb (eol_here c []) | _ => open_tail s' end
+  end.
+
+(* every position is an existing position of the document (no reliance on the clamp) *)
+Definition edit_in_doc_strict (s : str) (e : text_edit) : bool :=
+  let n := Z.of_nat (count_eol s) in
+  ((0 <=? e_sl e) && (e_sl e <=? n) && (e_sc e =? 0) &&
+   (0 <=? e_el e) && (e_el e <=? n) && (e_ec e =? 0))%Z.
